@@ -24,7 +24,7 @@ pub const OPS: &[&str] = &[
 pub const TEMPLATES: &[&str] = &[
     "ADD a 1", "ADD a 1.0", "ADD a -1", "ADD a b[1]", "SUB a 2.5", "MUL a -2.0", "DIV a 1e21", "DIV a 1e-7", "AND a 1", "IOR a b", "XOR a -1", "SHL a 1", "SHR a 1", "ASHR a 1", "NEG a", "NOT a", "EQ a b 1", "GT a b 1.0", "GE a b c",
     "LT a b -1", "LE a b -1.5", "MOVE a 1", "MOVE a 1.0", "MOVE a b", "EXCHANGE a b", "CONVERT a b", "LOAD a b c", "STORE a b 1", "STORE a b 1.0", "STORE a b c[2]", "DECLARE a BIT", "DECLARE a REAL[3]",
-    "DECLARE a INTEGER[2] SHARING b", "DECLARE a OCTET SHARING b OFFSET 1 BIT 2 REAL", "CALL f a", "CALL f a[1] 2 1.5 2i b", "CALL f", "HALT", "NOP", "WAIT", "RESET", "RESET 0", "RESET q", "INCLUDE \"f.quil\"", "PRAGMA A",
+    "DECLARE a INTEGER[2] SHARING b", "DECLARE a OCTET SHARING b OFFSET 1 BIT 2 REAL", "CALL f a", "CALL f a[1] 2 1.5 2i b", "CALL f 0 i", "CALL f", "HALT", "NOP", "WAIT", "RESET", "RESET 0", "RESET q", "INCLUDE \"f.quil\"", "PRAGMA A",
     "PRAGMA A b 1 \"d\"", "PRAGMA EXTERN f \"INTEGER (x : mut REAL[])\"", "LABEL @a", "JUMP @a", "JUMP-WHEN @a b", "JUMP-UNLESS @a b[1]", "MEASURE 0", "MEASURE 0 a", "MEASURE q a[1]", "MEASURE!m 0 a", "MEASURE!m q", "X 0", "X q",
     "CNOT 0 1", "RX(pi) 0", "RX(1.0) 0", "RX(-pi/2) 0", "RX(%t) q", "RX(2*a[1]+sin(b)) 0", "RX(1.5e-3, 2i, -(1+i)) 0 1", "DAGGER CONTROLLED FORKED RX(1,2) 0 1 2",
     "G(1^2^3, (1^2)^3, 1-2-3, 1-(2-3), 1/2/3, 1/(2/3), -2^2, (-2)^2, -(2^2)) 0", "PULSE 0 \"rf\" w", "PULSE 0 1 \"rf\" w/x(a: 1, b: %t)", "NONBLOCKING PULSE 0 \"rf\" flat(duration: 1.0, iq: 1+2i)", "CAPTURE 0 \"ro\" flat(duration: 1) a",
@@ -132,6 +132,20 @@ fn variant(i: &Instruction) -> String {
     d.split(|c: char| !c.is_alphanumeric()).next().unwrap_or("").to_string()
 }
 
+/// Structural cause of a CALL round-trip difference, so that the one recorded finding (an identifier
+/// argument spelled `i` directly after an immediate with no imaginary part: `0 i` prints as the text of
+/// the single immediate `0i`) does not cover any other way a CALL can change.
+fn call_cause(i: &Instruction) -> &'static str {
+    use quil_rs::instruction::UnresolvedCallArgument as A;
+    if let Instruction::Call(c) = i {
+        let glued = c.arguments.windows(2).any(|w| matches!((&w[0], &w[1]), (A::Immediate(v), A::Identifier(n)) if v.im == 0.0 && n == "i"));
+        if glued {
+            return ":identifier-i-after-real-immediate";
+        }
+    }
+    ""
+}
+
 /// C02 oracle on one accepted program.
 fn c02_check(s: &str) -> Option<Vec<Viol>> {
     let p = match catch(|| Program::from_str(s)) {
@@ -163,7 +177,7 @@ fn c02_check(s: &str) -> Option<Vec<Viol>> {
                 if p2 != p {
                     let a = p.to_instructions();
                     let b = p2.to_instructions();
-                    let which = a.iter().zip(b.iter()).find(|(x, y)| x != y).map(|(x, _)| variant(x)).or_else(|| a.first().map(variant));
+                    let which = a.iter().zip(b.iter()).find(|(x, y)| x != y).map(|(x, _)| format!("{}{}", variant(x), call_cause(x))).or_else(|| a.first().map(variant));
                     Some(("differs".to_string(), format!("printed text {t:?} parses to a different program"), which))
                 } else {
                     match p2.to_quil() {
